@@ -406,3 +406,29 @@ Fixpoint scenario_summaries (paths : list path) (st : wstate) (mem : kk) (polls 
 
 Definition fs_of_list (l : list (path * bytes)) : fsys :=
   fold_left (fun f pc => fs_set f (fst pc) (Some (snd pc))) l fs_empty.
+
+(* the order of externally visible steps of a run (requests, file operations, look-ups of a key
+   file), for comparison with the system-call order of an un-killed run *)
+Definition lev_skel (l : lev) : list (N * bytes) :=
+  match l with
+  | LStatus => [(0, [])]
+  | LAcquire _ => [(3, [])]
+  | LAttest k _ => [(6, key_guid k)]
+  | LFs (FCreate p) => [(10, p)]
+  | LFs (FWrite p _) => [(11, p)]
+  | LFs (FRename _ q) => [(12, q)]
+  | LFs (FRemove p) => [(13, p)]
+  | LNop (ELocalRead g) => [(20, keyfile g)]
+  | LNop (EReadBack k) => [(20, keyfile (key_guid k))]
+  | LNop _ => []
+  end.
+
+Fixpoint scenario_skeleton (st : wstate) (mem : kk) (polls : list hscript) : list (N * bytes) :=
+  match polls with
+  | [] => []
+  | hs :: t =>
+      let st0 := if hs_rotate hs then rotate st else st in
+      let f := faults_of hs st0 in
+      let tr := trace st0 mem f in
+      flat_map lev_skel tr ++ scenario_skeleton (run_levs st0 tr) (mem_after st0 mem f) t
+  end.
